@@ -4,7 +4,8 @@ import json, os
 VERIF = os.path.dirname(os.path.dirname(os.path.abspath(__file__)))
 BASE = json.load(open("/root/.vp/BASELINE.json"))["cmd"] if os.path.exists("/root/.vp/BASELINE.json") else ""
 
-TB = ("Thorough tier additionally runs the BOUNDED validation of the tower DBM stub contracts against the real SQL (159 014 operation sequences; labelled bounded, not a proof). "
+TB = ("Thorough tier additionally runs the BOUNDED validation of the tower DBM stub contracts against the real SQL (159 014 operation sequences; labelled bounded, not a proof) and, for properties served by the gatekeeper / tx_index units, the replay searches that drive the "
+      "real Gatekeeper + DBM (151 875 sequences) and the real TxIndex through small operation sequences and compare with the contracts' abstract view (bounded validation; they also supply the concrete failing input of a violation). "
       "Trusted: Verus/Z3 (and rustc front end); prelude std specs (assume_specification), domain stand-in types, "
       "external_body stubs for collaborators/DBM/crypto listed per run in the evidence; mechanical extraction rules "
       "E1-E18 (DESIGN.md 2.1) incl. the sequential projection of Mutex/Arc/Atomic (no interleavings).")
@@ -86,7 +87,8 @@ CLAIMED.update({
    technique=VT, ref="DESIGN.md §4 C11, §6"),
 })
 
-PT = ("Thorough tier (C05, C18) additionally runs the BOUNDED validation of the client DBM stub contracts against the real SQL (87 880 operation sequences; labelled bounded, not a proof). "
+PT = ("Thorough tier (C05, C18) additionally runs the BOUNDED validation of the client DBM stub contracts against the real SQL (87 880 operation sequences; labelled bounded, not a proof) and the replay search that drives the real WTClient + client DBM through 331 776 operation sequences "
+      "(bounded validation of the contracts' abstract view; it also supplies the concrete failing input of a wt_client violation). "
       "Trusted: Verus/Z3 (and rustc front end); prelude std specs; the client DBM stub transcribing watchtower-plugin/src/dbm.rs SQL as ghost relations; "
       "reqwest/serde_json as a nondeterministic oracle over the declared result types; ECDSA recovery uninterpreted; extraction rules E1-E18 incl. "
       "the sequential projection of Arc<Mutex<WTClient>> (no interleavings) and async removal.")
